@@ -706,9 +706,9 @@ impl Session {
                     "Unknown alert".to_string()
                 };
                 tracing::error!("[Session] Received Alert frame (fatal): {}", alert_msg);
-                // Close all streams
-                let mut streams = self.streams.write().await;
-                for (stream_id, stream) in streams.drain() {
+                // Record the alert as the cause on every open stream
+                let streams = self.streams.read().await;
+                for (stream_id, stream) in streams.iter() {
                     let error = AnyTlsError::Protocol(format!(
                         "Session closed due to alert: {}",
                         alert_msg
@@ -717,9 +717,9 @@ impl Session {
                     tracing::debug!("[Session] Closed stream {} due to alert", stream_id);
                 }
                 drop(streams);
-                // Mark session as closed
-                self.is_closed
-                    .store(true, std::sync::atomic::Ordering::Relaxed);
+                // Tear the session down like any other fatal end: mark it closed, release
+                // readers and pending opens, shut the transport down
+                let _ = self.close().await;
                 return Err(AnyTlsError::Protocol(format!("Alert: {}", alert_msg)));
             }
             Command::HeartRequest => {
@@ -852,6 +852,9 @@ impl Session {
     /// Write a frame to the connection
     pub async fn write_frame(&self, frame: Frame) -> Result<()> {
         use tokio_util::codec::Encoder;
+        if self.is_closed() {
+            return Err(AnyTlsError::SessionClosed);
+        }
         let frame_cmd = frame.cmd;
         let frame_stream_id = frame.stream_id;
         let mut codec = FrameCodec;
